@@ -90,14 +90,20 @@ class IsoDepInitiator(object):
             pfb = pack('B', (0x02, 0x12)[more] | self.pni)
             data = pfb + command[offset:offset+self.miu]
 
+            wait = timeout
             for i in itertools.count(start=1):  # pragma: no branch
                 try:
-                    data = self.clf.exchange(data, timeout)
+                    data = self.clf.exchange(data, wait)
+                    wait = timeout
                     if len(data) == 0:
                         raise nfc.clf.TransmissionError
                     if data[0] == 0xA2 | (~self.pni & 1):
                         log.debug("ISO-DEP retransmit after ack")
                         data = pfb + command[offset:offset+self.miu]
+                        continue
+                    if data[0] & 0b11111110 == 0b11110010 and len(data) > 1:
+                        log.debug("ISO-DEP waiting time extension")
+                        wait = (data[1] & 0x3F) * self.fwt
                         continue
                     break
                 except nfc.clf.TransmissionError:
@@ -117,10 +123,6 @@ class IsoDepInitiator(object):
                 except nfc.clf.ProtocolError:
                     log.error("ISO-DEP unrecoverable protocol error")
                     raise Type4TagCommandError(nfc.tag.PROTOCOL_ERROR)
-
-            while data[0] & 0b11111110 == 0b11110010:  # WTX
-                log.debug("ISO-DEP waiting time extension")
-                data = self.clf.exchange(data, (data[1] & 0x3F) * self.fwt)
 
             if data[0] & 0x01 != self.pni:
                 log.warning("ISO-DEP protocol error: block number")
